@@ -11,7 +11,7 @@ CHECKS = {
    note='Trusted: TLC; ring for the primitives; the harness concretisation (builders, real keys, real files); abstraction: perfect signatures, injective key ids. Small scope stated in the evidence; clock pinned through the guarded hook.',
    tech='TLA+ spec Verify.tla (pipeline state machine + requirement layer) model-checked with TLC; spec->impl replay of every TLC scenario through in_toto_verify; impl->spec trace validation of hook events (Trace_Verify.tla)'),
  "C02": dict(cat="model_checking", ref="§4 C02, §3.1",
-   text='MC_C02 instantiates Verify.tla over layout key table x step key list x threshold x per-key link file state (absent, valid, other key under this id, corrupted, tampered, misfiled, multiply signed, sub-layout, unparsable); TLC proves OkOnlyIfNec; every scenario is replayed through in_toto_verify on a real link directory; each link_counted hook event must name a key authorised for that step with valid evidence (Trace_Verify.tla).',
+   text='MC_C02 instantiates Verify.tla over layout key table x step key list x threshold x per-key link file state (absent, valid, other key under this id, corrupted, tampered, misfiled, multiply signed, sub-layout, unparsable); TLC proves OkOnlyIfNec; every scenario is replayed through in_toto_verify on a real link directory; each link_counted hook event must name a key authorised for that step with valid evidence (Trace_Verify.tla). Seeded random supply chains beyond the bounds (up to 3 steps, 4 keys per step, every file state, sub-layouts) are run with hooks on and decided by Trace_Verify.tla, i.e. by the requirement layer evaluated by TLC on each random scenario.',
    note='Trusted: TLC; ring for the primitives; the harness concretisation (builders, real keys, real files); abstraction: perfect signatures, injective key ids. Small scope stated in the evidence; clock pinned through the guarded hook.',
    tech='TLA+ spec Verify.tla (pipeline state machine + requirement layer) model-checked with TLC; spec->impl replay of every TLC scenario through in_toto_verify; impl->spec trace validation of hook events (Trace_Verify.tla)'),
  "C06": dict(cat="model_checking", ref="§4 C06, §3.1",
@@ -27,7 +27,7 @@ CHECKS = {
    note='Trusted: TLC; ring for the primitives; the harness concretisation (builders, real keys, real files); abstraction: perfect signatures, injective key ids. Small scope stated in the evidence; clock pinned through the guarded hook.',
    tech='TLA+ spec Verify.tla (pipeline state machine + requirement layer) model-checked with TLC; spec->impl replay of every TLC scenario through in_toto_verify; impl->spec trace validation of hook events (Trace_Verify.tla)'),
  "C13": dict(cat="model_checking", ref="§4 C13",
-   text="Verify.tla keeps the choice of a step's representative link (and every other unordered-map iteration) nondeterministic; MC_C13 makes TLC compute, for every scenario with surplus differing links, the set of admissible (verdict, summary) pairs. The real verifier is run N times per scenario in-process (fresh hash seeds) and in fresh processes; the observation history is validated against Determinism.tla: every observation admitted by Verify.tla and all observations of one scenario equal.",
+   text="Verify.tla keeps the choice of a step's representative link (and every other unordered-map iteration) nondeterministic; MC_C13 makes TLC compute, for every scenario with surplus differing links, the set of admissible (verdict, summary) pairs. The real verifier is run N times per scenario in-process (fresh hash seeds) and in fresh processes; the observation history is validated against Determinism.tla: every observation admitted by Verify.tla and all observations of one scenario equal. A history pass verifies each scenario on paths that previously held another content of the same shape (same sizes, same modification times): the verdict must be that of the current content.",
    note='Trusted: TLC; ring for the primitives; the harness concretisation (builders, real keys, real files); abstraction: perfect signatures, injective key ids. Small scope stated in the evidence; clock pinned through the guarded hook.',
    tech='TLA+ spec Verify.tla model-checked with TLC (nondeterministic Reduce) + observation-history validation against Determinism.tla'),
  "C15": dict(cat="model_checking", ref="§4 C15",
@@ -47,11 +47,11 @@ CHECKS = {
    note="Trusted: TLC, serde_json as JSON parser, the harness tokeniser. Class-based for characters and numbers (boundary integers exact); nesting <= 2, <= 2 members.",
    tech="TLA+ spec CJsonValues.tla (acceptor) + TLC enumeration; impl->spec trace validation of tokenised canonical output (Trace_CJson.tla)"),
  "C09": dict(cat="model_checking", ref="§4 C09, §3.2",
-   text="Lifecycle.tla models the life of a signed block (construct with the direct constructor or the builder, write compact / pretty, read, optional edit, optional signature mutation, verify with a chosen key set and threshold); the expected verdict is derived from the abstract state by the C04 requirement, and TLC proves UntouchedVerifies / EditInvalidates / NoForeignKey over every path. Every path is executed on real layouts and links for several key types with content strings from all character classes in every string-bearing field; every bit of an ed25519 signature (a sample for ECDSA / RSA-PSS) is flipped.",
+   text="Lifecycle.tla models the life of a signed block (construct with the direct constructor or the builder, write compact / pretty, read, optional edit, optional signature mutation, verify with a chosen key set and threshold); the expected verdict is derived from the abstract state by the C04 requirement, and TLC proves UntouchedVerifies / EditInvalidates / NoForeignKey over every path. Every path is executed on real layouts and links for several key types with content strings from all character classes in every string-bearing field; every bit of an ed25519 signature (a sample for ECDSA / RSA-PSS) is flipped. Documents are written through serde_json (compact, pretty) and through the library's Json / JsonPretty interchange; signer lists with repeated keys distinguish the direct constructor (one signature per listing) from the builder (one per key); duplicates of mixed validity are left open as in C04.",
    note="Trusted: TLC, ring. Class-based strings (members by seed); 1..3 signers; 'same material under a different scheme' built with PublicKey::from_spki.",
    tech="TLA+ spec Lifecycle.tla model-checked with TLC; spec->impl replay of every path on real signed metadata"),
  "C05": dict(cat="model_checking", ref="§4 C05, §3.2, §3.4",
-   text="MC_C05 combines Lifecycle.tla (invariant EditInvalidates: after any edit of the signed part the signatures no longer verify) with CJson.tla (the signed-bytes string encoding is injective, proved by TLC on all strings up to the bound; MC_C11 proves it for all 11 classes). TLC enumerates every single-field edit of a rich link (23 fields) and layout (28 fields) and every ordered pair of distinct near-collision strings; each scenario is executed on documents really signed by the library: after the edit verification with the signers' keys must fail and the canonical bytes must differ.",
+   text="MC_C05 combines Lifecycle.tla (invariant EditInvalidates: after any edit of the signed part the signatures no longer verify) with CJson.tla (the signed-bytes string encoding is injective, proved by TLC on all strings up to the bound; MC_C11 proves it for all 11 classes). TLC enumerates every single-field edit of a rich link (23 fields) and layout (28 fields) and every ordered pair of distinct near-collision strings; each scenario is executed on documents really signed by the library: after the edit verification with the signers' keys must fail and the canonical bytes must differ. Expiry edits are applied at every calendar-position class (mid-year, year ends, leap day) and the signed bytes of 48 k distinct expiry instants are checked pairwise distinct; structure-level near collisions (members / array elements folded into one whose text spells the boundary) are edits too.",
    note="Trusted: TLC, ring, serde_json. Pairs of documents are generated by single edits and bounded string pairs, not all pairs of documents.",
    tech="TLA+ specs Lifecycle.tla + CJson.tla checked with TLC; spec->impl replay of every edit scenario through Metablock::verify"),
  "C12": dict(cat="model_checking", ref="§4 C12, §3.5",
@@ -59,11 +59,11 @@ CHECKS = {
    note="Trusted: TLC, sha256 (ring), the DER templates of the harness, serde_json. Key material: committed fixture keys (9 ed25519, 3 P-256, 2+2 RSA).",
    tech="TLA+ spec KeyId.tla model-checked with TLC; spec->impl replay of every path / table on real keys with independent id and SPKI oracles"),
  "C16": dict(cat="model_checking", ref="§4 C16, §3.5",
-   text="Wire.tla gives the artifact-rule grammar as a parser machine (checked by TLC against a functional grammar and for round trip on every valid form and every single-token mutation) and the document life cycle value -> text -> value' -> text''. TLC enumerates shape descriptors of links and layouts (every optional part and variant, incl. extra byproducts named like typed members). Every document is built with the builders and must round-trip as signed block, wrapper and bare metadata, compact and pretty; every accepted token sequence must parse to the grammar's value and serialise to the same tokens.",
+   text="Wire.tla gives the artifact-rule grammar as a parser machine (checked by TLC against a functional grammar and for round trip on every valid form and every single-token mutation) and the document life cycle value -> text -> value' -> text''. TLC enumerates shape descriptors of links and layouts (every optional part and variant, incl. extra byproducts named like typed members). Every document is built with the builders and must round-trip as signed block, wrapper and bare metadata, compact and pretty; every accepted token sequence must parse to the grammar's value and serialise to the same tokens. Round trips also start from TEXT: crafted JSON whose command arguments, names, paths and environment carry white space, empty strings and untidy operands must parse and serialise back to the same JSON.",
    note='Trusted: TLC, serde_json (reader / writer / Value), the harness document builders. Descriptor-based: each optional part / variant is a descriptor dimension; string content by class; field universes are the top-level members.',
    tech='TLA+ spec Wire.tla (rule parser machine, document life cycle) model-checked with TLC; spec->impl replay of every descriptor / token sequence'),
  "C17": dict(cat="model_checking", ref="§4 C17, §3.5",
-   text="Every document of the Wire.tla instance - rule token sequences (accepted and rejected), link and layout descriptors as signed block / wrapper / bare metadata, predicate and statement field subsets - is parsed through 4 channels (str, slice, reader, JSON tree) x 3 spellings (plain, whitespace, all characters \\\\uXXXX-escaped with members reversed); Wire.tla's Parse step is channel-independent, so all 12 results must agree on accept / reject and value.",
+   text="Every document of the Wire.tla instance - rule token sequences (accepted and rejected), link and layout descriptors as signed block / wrapper / bare metadata, predicate and statement field subsets - is parsed through 4 channels (str, slice, reader, JSON tree) x 3 spellings (plain, whitespace, all characters \\\\uXXXX-escaped with members reversed); Wire.tla's Parse step is channel-independent, so all 12 results must agree on accept / reject and value. Channels: serde_json from_str / from_slice / from_reader / from_value and the library's Json::from_slice / from_reader / deserialize and JsonPretty::from_reader; texts: as written, extra white space, fully escaped with members reversed, trailing garbage, two concatenated documents, truncated.",
    note='Trusted: TLC, serde_json (reader / writer / Value), the harness document builders. Descriptor-based: each optional part / variant is a descriptor dimension; string content by class; field universes are the top-level members.',
    tech='TLA+ spec Wire.tla enumerated with TLC; every document decoded through all channel x spelling combinations and compared'),
  "C19": dict(cat="model_checking", ref="§4 C19, §3.5",
@@ -71,11 +71,11 @@ CHECKS = {
    note='Trusted: TLC, serde_json (reader / writer / Value), the harness document builders. Descriptor-based: each optional part / variant is a descriptor dimension; string content by class; field universes are the top-level members.',
    tech='TLA+ spec Wire.tla (schemas, disjointness theorem) checked with TLC; spec->impl replay of every field-subset document'),
  "C18": dict(cat="model_checking", ref="§4 C18, §3.5",
-   text="Record.tla models the file-system graph (files, nested / empty directories, up to two symbolic links to files, directories, each other or an ancestor), the directory walk (real directories always entered, links to directories followed unless on the descent stack), strip-prefix selection, collision detection and the materials / command / products sequencing of a run. TLC enumerates graphs x argument lists x strip lists x commands and proves Exact, ErrIffCollision and EveryFileOnce on the walk machine; every graph is materialised in a temporary directory (four name classes, absolute and relative links, non-normalised arguments, sha256 / sha512 / both, empty to 1 MiB files) and record_artifacts / in_toto_run must return exactly the specification's entries with independently recomputed digests, byproducts equal to the command's streams and status.",
+   text="Record.tla models the file-system graph (files, nested / empty directories, up to two symbolic links to files, directories, each other or an ancestor), the directory walk (real directories always entered, links to directories followed unless on the descent stack), strip-prefix selection, collision detection and the materials / command / products sequencing of a run. TLC enumerates graphs x argument lists x strip lists x commands and proves Exact, ErrIffCollision and EveryFileOnce on the walk machine; every graph is materialised in a temporary directory (four name classes, absolute and relative links, non-normalised arguments, sha256 / sha512 / both, empty to 1 MiB files) and record_artifacts / in_toto_run must return exactly the specification's entries with independently recomputed digests, byproducts equal to the command's streams and status. Every order of the strip-prefix list is tried (the specification's result is order-free).",
    note="Trusted: TLC, walkdir / the OS for link resolution, ring for the independent digests. Bounds: the fixed skeleton of 4 files, 3 directories, 2 links; dangling links and non-existent arguments are outside the quantifier; one file reachable by two paths with the same key is left open (error or one entry).",
    tech="TLA+ spec Record.tla (walk machine) model-checked with TLC; spec->impl replay of every graph on a real directory tree"),
  "C14": dict(cat="exploration", ref="§4 C14, §3.5",
-   text="Exploration guided by a TLA+ specification: Robust.tla states totality of every entry point (value or error, no other outcome) and defines an adversarial class lattice per field of link files, layouts, rule inputs and key material; TLC enumerates every document with at most two unusual fields (all pairs of classes) and each is offered to all parsers, key importers, block verification, rule application and final-product verification (file placed in the link directory before any signature check) under a panic guard in worker processes whose death is attributed to the scenario; the call log is validated against Trace_Robust.tla, which has no step for a panic. Byte level: seeded mutation (bit flips, truncation, splices, interesting tokens) of well-formed documents. 'All byte strings' is explored, not decided.",
+   text="Exploration guided by a TLA+ specification: Robust.tla states totality of every entry point (value or error, no other outcome) and defines an adversarial class lattice per field of link files, layouts, rule inputs and key material; TLC enumerates every document with at most two unusual fields (all pairs of classes) and each is offered to all parsers, key importers, block verification, rule application and final-product verification (file placed in the link directory before any signature check) under a panic guard in worker processes whose death is attributed to the scenario; the call log is validated against Trace_Robust.tla, which has no step for a panic. Byte level: seeded mutation (bit flips, truncation, splices, interesting tokens) of well-formed documents. 'All byte strings' is explored, not decided. Key material additionally comes in structurally valid but degenerate DER (empty / unused-bits-only bit string, empty OID, empty AlgorithmIdentifier, long-form lengths) wrapped as DER, PEM and key JSON.",
    note="Trusted: TLC for the enumeration; catch_unwind / process exit status as the crash observers; a hang shows as a harness timeout (tool error). Coverage is pairwise over the listed classes plus 20 k (quick) / 2 M (thorough) mutants.",
    tech="TLA+ spec Robust.tla (totality + class lattice) enumerated with TLC; every document and seeded byte mutants offered to all entry points under a crash monitor; call-log trace validation (Trace_Robust.tla)"),
  "C03": dict(cat="model_checking", ref="§4 C03, §3.3",
